@@ -382,13 +382,31 @@ def _pepoly_one(c):
          'tracer': np.stack([ev(l['tracer']) for l in lv])}
   got = {'vorticity': tot.vorticity, 'divergence': tot.divergence, 'temperature_variation': tot.temperature_variation,
          'log_surface_pressure': tot.log_surface_pressure, 'tracer': tot.tracers['q']}
-  for f in exp:
-    scale = 1.0 + float(np.abs(exp[f]).max())
-    err = np.where(real, np.abs(got[f] - exp[f]), 0.0)
-    if not np.all(np.isfinite(got[f])) or err.max() > 5e-11 * scale:
-      j = np.unravel_index(np.argmax(err), err.shape)
-      bad(f'steady:pepoly:{f}', f'total {f} tendency at level {int(j[0])}, node (lon {lon[j[1], j[2]]:.4f}, sin(lat) {sinlat[j[1], j[2]]:.4f}): '
-          f'code {got[f][j]!r}, continuous equations {exp[f][j]!r} (max |field| {scale - 1:.3g}, max error {err.max():.3e})')
+  def compare(tag, got, exp):
+    for f in exp:
+      scale = 1.0 + float(np.abs(exp[f]).max())
+      err = np.where(real, np.abs(got[f] - exp[f]), 0.0)
+      if not np.all(np.isfinite(got[f])) or err.max() > 5e-11 * scale:
+        j = np.unravel_index(np.argmax(err), err.shape)
+        bad(f'steady:pepoly:{tag}{f}', f'total {f} tendency at level {int(j[0])}, node (lon {lon[j[1], j[2]]:.4f}, sin(lat) {sinlat[j[1], j[2]]:.4f}): '
+            f'code {got[f][j]!r}, continuous equations {exp[f][j]!r} (max |field| {scale - 1:.3g}, max error {err.max():.3e})')
+  compare('', got, exp)
+  # moist momentum equations: the tracer as specific humidity (virtual temperature in the pressure-gradient and geopotential terms)
+  if 'moist_vorticity' in lv[0]:
+    specs_m = pe.PrimitiveEquationsSpecs(radius=1.0, angular_velocity=omega, gravity_acceleration=grav,
+                                         ideal_gas_constant=Rgas, water_vapor_gas_constant=fl(c['gasv']),
+                                         water_vapor_isobaric_heat_capacity=3.0, kappa=kappa, scale=scales.DEFAULT_SCALE)
+    stm = pe.StateWithTime(st.vorticity, st.divergence, st.temperature_variation, st.log_surface_pressure,
+                           tracers={'specific_humidity': st.tracers['q']}, sim_time=jnp.asarray(0.0))
+    eqm = pe.MoistPrimitiveEquations(np.array(c['tref'], np.float64), jnp.asarray(modal(ev(c['oro']) / grav)), coords, specs_m)
+    exm, imm = eqm.explicit_terms(stm), eqm.implicit_terms(stm)
+    nod = lambda a, b_: np.asarray(grid.to_nodal(a + b_))
+    gotm = {'vorticity': nod(exm.vorticity, imm.vorticity), 'divergence': nod(exm.divergence, imm.divergence),
+            'log_surface_pressure': nod(exm.log_surface_pressure, imm.log_surface_pressure),
+            'tracer': nod(exm.tracers['specific_humidity'], imm.tracers['specific_humidity'])}
+    expm = {'vorticity': np.stack([ev(l['moist_vorticity']) for l in lv]), 'divergence': np.stack([aev(l['moist_divergence']) for l in lv]),
+            'log_surface_pressure': exp['log_surface_pressure'], 'tracer': exp['tracer']}
+    compare('moist:', gotm, expm)
   return out
 
 
